@@ -347,17 +347,32 @@ impl Sys {
                 let mut diffs: Vec<String> = vec![];
                 let mut handles = cm.ca_handles().unwrap_or_default();
                 handles.sort_by_key(|h| h.to_string());
+                // an entity that is in the storage but that the running instance itself can no longer produce
+                // (krill's store reads a command it has just written back at the next access) is a difference too
+                let stored_ta = |ns: &str| -> bool {
+                    Ident::boxed_from_string(ns.to_string()).ok().and_then(|n| krill.storage().open(&n).ok())
+                        .map(|kv| kv.has(Some(Ident::make("ta")), Ident::make("command-0.json")).unwrap_or(false)).unwrap_or(false)
+                };
                 let live: Vec<(String, Value)> = handles.iter().filter_map(|hd| {
-                    cm.get_ca(hd).ok().map(|ca| (hd.to_string(), serde_json::to_value(&*ca).unwrap_or(Value::Null)))
+                    match cm.get_ca(hd) {
+                        Ok(ca) => Some((hd.to_string(), serde_json::to_value(&*ca).unwrap_or(Value::Null))),
+                        Err(_) => { diffs.push(format!("cas/{hd}:live:load-error")); None }
+                    }
                 }).collect();
                 diffs.extend(self.reload_diff::<krill::server::ca::CertAuth>("cas", &live));
-                if let Ok(p) = cm.get_trust_anchor_proxy() {
-                    let live = vec![("ta".to_string(), serde_json::to_value(&*p).unwrap_or(Value::Null))];
-                    diffs.extend(self.reload_diff::<krill::server::taproxy::TrustAnchorProxy>("ta_proxy", &live));
+                match cm.get_trust_anchor_proxy() {
+                    Ok(p) => {
+                        let live = vec![("ta".to_string(), serde_json::to_value(&*p).unwrap_or(Value::Null))];
+                        diffs.extend(self.reload_diff::<krill::server::taproxy::TrustAnchorProxy>("ta_proxy", &live));
+                    }
+                    Err(_) => if stored_ta("ta_proxy") { diffs.push("ta_proxy/ta:live:load-error".into()) },
                 }
-                if let Ok(p) = cm.get_trust_anchor_signer() {
-                    let live = vec![("ta".to_string(), serde_json::to_value(&*p).unwrap_or(Value::Null))];
-                    diffs.extend(self.reload_diff::<krill::tasigner::TrustAnchorSigner>("ta_signer", &live));
+                match cm.get_trust_anchor_signer() {
+                    Ok(p) => {
+                        let live = vec![("ta".to_string(), serde_json::to_value(&*p).unwrap_or(Value::Null))];
+                        diffs.extend(self.reload_diff::<krill::tasigner::TrustAnchorSigner>("ta_signer", &live));
+                    }
+                    Err(_) => if stored_ta("ta_signer") { diffs.push("ta_signer/ta:live:load-error".into()) },
                 }
                 if self.sk {
                     diffs.extend(self.reload_diff_rest());
